@@ -147,3 +147,42 @@ def decide_pair(hist, data, name_a, res_a, conv_a, name_b, res_b, conv_b, part, 
         case.update(case_extra)
     part.violation(case, f"{name_a} and {name_b} disagree and the reference model explains neither as accepted nor as a listed finding: {H.short(hist)}")
     return "violation"
+
+
+def decide_spec(hist, data, backend, res, conv, part, case_extra=None, check_order=True, raise_ok=False, extra_devs=()):
+    """
+    Decision for a *specification* property (DESIGN 2.6): the backend's result against the ideal
+    reference model; a mismatch is a KNOWN-FINDING only if it equals the exact as-is model built
+    from the open deviation switches of that backend (and one of them actually fired).
+    Returns: "agree" | "known" | "ambiguous" | "unspecified" | "raised" | "violation".
+    """
+    s, r, _ = r_eval(hist, data, conv, ())
+    if s != "ok":
+        part.count("skipped_" + s)
+        return s
+    if res[0] == "ok" and results_equal(hist, res, r, check_order=check_order):
+        part.count("agree:" + backend)
+        return "agree"
+    fid = raise_finding(backend, res, hist, data)
+    if fid is not None and part.is_open(fid):
+        part.known(fid, example={"history": H.short(hist), "data": data, backend: compare.brief(res)})
+        part.count("known_finding_cases")
+        return "known"
+    if res[0] == "raise" and raise_ok:
+        part.count("raised:" + backend)
+        return "raised"
+    devs = [d for d in list(DEVIATIONS.get(backend, [])) + list(extra_devs) if part.is_open(d)]
+    r2 = None
+    if devs and res[0] == "ok":
+        s2, r2, trig = r_eval(hist, data, conv, devs)
+        if s2 == "ok" and results_equal(hist, res, r2, check_order=check_order) and trig:
+            ex = {"history": H.short(hist), "data": data, backend: compare.brief(res), "reference": compare.brief(r)}
+            for t in sorted(trig):
+                part.known(t, example=ex)
+            part.count("known_finding_cases")
+            return "known"
+    case = {"history": hist, "data": data, "backend": backend, backend: compare.brief(res), "reference": compare.brief(r)}
+    if case_extra:
+        case.update(case_extra)
+    part.violation(case, f"{backend} result differs from the reference semantics (and from every listed finding): {H.short(hist)}")
+    return "violation"
